@@ -22,7 +22,11 @@ ASSUMPTIONS = [
     "oracle: X' = A X + B a with A, B written from Hill's equations in QSW and, separately, in TNW "
     "(T = S, N = -Q, W = W); Phi and Gamma from an extended-precision scaling-and-squaring matrix "
     "exponential of the non-dimensional augmented system (no closed form)",
-    "n = sqrt(mu / sma^3) with the library's Earth mu (a constant, not the code under test)",
+    "n = sqrt(mu / sma^3) with mu of the body the Hill frame is centred on: Earth (beyond's own centre), Mars, "
+    "Moon (beyond.constants, constants not code under test) or a made-up Body of 1e24 kg (mass x G)",
+    "multi_target: 2-3 propagators alive in one case, most of them with exactly the same semi major-axis about "
+    "different bodies / orientations, used interleaved (propagate, propagate from a copy of the orbit, n, helper.period, helper.hohmann); each "
+    "must match its own oracle whatever was evaluated before",
     "maneuvers are dated at or after the orbit's epoch and listed in chronological order of their "
     "start; maneuver frame is None (components in the orbit's own Hill axes).  Facet hill_solution "
     "uses lists that do not overlap (they may touch, as CWHelper.vbar_linear's do); facet overlap "
@@ -382,6 +386,95 @@ def maneuver_inside_thrust_arc(facet, case, kind, msg, data):
 
 
 FINDINGS = {"C16/maneuver-inside-thrust-arc": maneuver_inside_thrust_arc}
+
+
+# ------------------------------------------------------------------ multi_target
+
+
+@st.composite
+def multi_case(draw, shard, tier):
+    """2-3 propagators alive at once - some with EXACTLY the same semi major-axis about different
+    bodies / in different orientations - used in a drawn interleaving."""
+    d = D(draw)
+    shared = d.pick(7.0e6, 1.0e7, 6.778e6) if d.coin() else d.u(6.0e6, 1.2e7)   # valid about every body
+    targets = []
+    for j in range(d.int(2, 3)):
+        body = d.pick("Earth", "Mars", "Moon", "Custom")
+        same = j == 0 or d.int(0, 3) > 0
+        sma = shared if same else d.u(*SMA_RANGE[body])
+        targets.append(dict(body=body, ori=d.pick("QSW", "TNW"), sma=sma, x0=draw_state(d)))
+    # make sure two targets share the sma with different bodies in most cases
+    if d.int(0, 4) > 0 and targets[0]["body"] == targets[1]["body"]:
+        targets[1]["body"] = {"Earth": "Mars", "Mars": "Earth", "Moon": "Earth", "Custom": "Moon"}[targets[0]["body"]]
+        targets[1]["sma"] = shared
+    ops = []
+    for _ in range(d.int(3, 8)):
+        j = d.int(0, len(targets) - 1)
+        kind = d.pick("propagate", "propagate", "copy", "copy", "period", "hohmann", "n")
+        P = period_us(targets[j]["sma"], targets[j]["body"])
+        ops.append(dict(j=j, kind=kind, t=int(d.u(-2.0, 2.0) * P), radial=d.signed(10.0, 3000.0)))
+    return dict(k0=d.int(0, 86_399_999_999), targets=targets, ops=ops, lazy=d.coin())
+
+
+def check_multi(case):
+    from beyond.utils.cwhelper import CWHelper
+
+    built = {}
+
+    def get(j):
+        if j not in built:
+            tg = case["targets"][j]
+            sub = dict(sma=tg["sma"], ori=tg["ori"], body=tg["body"], k0=case["k0"], x0=tg["x0"])
+            orb, epoch = make_orbit(sub, mans=[])
+            built[j] = (orb, epoch, CWHelper(orb.propagator))
+        return built[j]
+
+    if not case["lazy"]:
+        for j in range(len(case["targets"])):
+            get(j)
+    worst = 0.0
+    for step, op in enumerate(case["ops"]):
+        tg = case["targets"][op["j"]]
+        orb, epoch, helper = get(op["j"])
+        n = mean_motion(tg["sma"], tg["body"])
+        who = f"step {step}: target {op['j']} ({tg['body']}, {tg['ori']}, a={tg['sma']!r} m) among " + \
+              ", ".join(f"{t['body']}/a={t['sma']!r}" for t in case["targets"])
+        if op["kind"] in ("propagate", "copy"):
+            t = op["t"] * US
+            # "copy": a copy of the orbit carries a copy of its propagator, which must stay this target's
+            src = orb.copy() if op["kind"] == "copy" else orb
+            res = src.propagate(at(epoch, op["t"]))
+            if res.frame.orientation != tg["ori"]:
+                raise Violation("result-frame-multi", f"{who}: result in {res.frame.name}")
+            got = state_of(res)
+            want, scale = hill.piecewise(n, np.array(tg["x0"], float), [], t, tg["ori"])
+            tol = tol_state(n, scale, n * t, 1)
+            r = float(np.max(np.abs(got - want) / tol))
+            worst = max(worst, r)
+            if r > 1:
+                j = int(np.argmax(np.abs(got - want) / tol))
+                raise Violation("hill-solution-multi", f"{who}: t={t!r} s, component {j} is {float(got[j])!r}, Hill's "
+                                f"equations about {tg['body']} give {float(want[j])!r} ({r:.3g} x tol)", ratio=r)
+        elif op["kind"] == "period":
+            got = helper.period.total_seconds()
+            if abs(got - 2 * math.pi / n) > 1e-6:
+                raise Violation("period-multi", f"{who}: helper.period = {got!r} s, 2 pi / n = {2 * math.pi / n!r} s")
+        elif op["kind"] == "n":
+            got = float(orb.propagator.n)
+            if abs(got / n - 1) > 4 * EPS:
+                raise Violation("mean-motion-multi", f"{who}: propagator.n = {got!r}, sqrt(mu/a^3) = {n!r}")
+        else:
+            mans = helper.hohmann(op["radial"], at(epoch, max(op["t"], 0)))
+            dv = np.asarray(mans[0].dv(orb), float)
+            want = hill.perm6(tg["ori"])[:3, :3] @ np.array([0.0, op["radial"] * n / 4, 0.0])
+            if np.max(np.abs(dv - want)) > 8 * EPS * abs(op["radial"]) * n:
+                raise Violation("hohmann-multi", f"{who}: hohmann({op['radial']!r}) burns {dv.tolist()}, "
+                                f"radial n / 4 along-track is {want.tolist()}")
+    bodies = {(t["sma"], t["body"]) for t in case["targets"]}
+    smas = {t["sma"] for t in case["targets"]}
+    clash = len(bodies) > len(smas)
+    return dict(nt=clash, cls=["same-sma-other-body" if clash else "distinct", f"targets:{len(case['targets'])}",
+                               "lazy" if case["lazy"] else "eager"], ratio=worst)
 
 
 # ------------------------------------------------------------------ composition / inverse
@@ -764,6 +857,9 @@ FACETS = [
           quick=(12, 600), thorough=(24, 4000)),
     Facet("overlap", overlap_case, check_overlap, setup=_setup,
           rule="some query falls inside a thrust arc after a later-listed maneuver has started",
+          quick=(6, 300), thorough=(12, 3000)),
+    Facet("multi_target", multi_case, check_multi, setup=_setup,
+          rule="two live propagators have exactly the same semi major-axis about different bodies",
           quick=(6, 300), thorough=(12, 3000)),
     Facet("composition", comp_case, check_composition, setup=_setup,
           rule="|n t1| > 0.1 and |n t2| > 0.1", quick=(6, 400), thorough=(12, 4000)),
